@@ -391,72 +391,7 @@ func runC14Format(ctx *Ctx) {
 		}
 		runGlue(ctx, c)
 	}
-	// formatlist: element i is format() of the i-th members
-	m := ctx.N(400, 6000)
-	for i := 0; i < m; i++ {
-		r := ctx.R
-		l := r.Intn(4)
-		format := []string{"%s-%d", "%v/%v", "%[2]d:%[1]s", "%s%%%d", "%5s|%-3d|"}[r.Intn(5)]
-		mk := func(gen func() cty.Value, ty cty.Type) (cty.Value, []cty.Value) {
-			if r.Intn(3) == 0 {
-				v := gen()
-				return v, nil
-			}
-			els := make([]cty.Value, l)
-			for j := range els {
-				els[j] = gen()
-			}
-			if l == 0 {
-				return cty.ListValEmpty(ty), els
-			}
-			return cty.ListVal(els), els
-		}
-		a1, e1 := mk(func() cty.Value { return sv(genC14Str(ctx, 2)) }, cty.String)
-		a2, e2 := mk(func() cty.Value { return cty.NumberIntVal(int64(r.Intn(100))) }, cty.Number)
-		args := []cty.Value{sv(format), a1, a2}
-		out, res, class := stdOut(stdlib.FormatListFunc, args)
-		ctx.Tag("class:formatlist:" + class)
-		ctx.Eval("formatlist "+wireArgs(args), true)
-		cnt := 1
-		if e1 != nil || e2 != nil {
-			cnt = l
-		}
-		var want []cty.Value
-		bad := false
-		for j := 0; j < cnt; j++ {
-			x1, x2 := a1, a2
-			if e1 != nil {
-				x1 = e1[j]
-			}
-			if e2 != nil {
-				x2 = e2[j]
-			}
-			v, err := stdlib.Format(sv(format), x1, x2)
-			if err != nil {
-				bad = true
-				break
-			}
-			want = append(want, v)
-		}
-		switch {
-		case class == "panic" || class == "panicerr":
-			c14Fail(ctx, "formatlist", "formatlist-panic", "formatlist panicked", "FormatList", args, out)
-		case bad:
-			if class != "err" {
-				c14Fail(ctx, "formatlist", "formatlist-accepts", "an element fails in format() but formatlist succeeded", "FormatList", args, out)
-			}
-		case class != "ok":
-			c14Fail(ctx, "formatlist", "formatlist-rejects", "every element formats but formatlist failed", "FormatList", args, out)
-		default:
-			wantV := cty.ListValEmpty(cty.String)
-			if len(want) > 0 {
-				wantV = cty.ListVal(want)
-			}
-			if !res.RawEquals(wantV) {
-				c14Fail(ctx, "formatlist", "formatlist-differs", "formatlist is not the element-wise format()", "FormatList", args, out)
-			}
-		}
-	}
+	runC14FormatList(ctx)
 }
 
 // ---- jsonencode / jsondecode (search only here; the JSON codec itself is C15's subject) ----
